@@ -55,7 +55,7 @@ func init() {
 			}, MinSites: 4},
 			{ID: "C02.1", Desc: "decision rows: no-cache / stale+must-revalidate / request no-cache forbid unvalidated reuse", Run: ruleC02_1, MinSites: 3},
 			{ID: "C02.2", Desc: "max-stale does not override must-revalidate / no-cache", Run: ruleC02_2, MinSites: 1},
-			{ID: "C02.3", Desc: "conditional request: validators copied onto a clone", Run: ruleC02_3, MinSites: 3},
+			{ID: "C02.3", Desc: "conditional request: validators copied onto a clone", Run: func(c *Ctx) { ruleC02_3(c); ruleValidatorGuards(c, "C02.3") }, MinSites: 3},
 			{ID: "C02.4", Desc: "qualified no-cache fields stripped on every unvalidated return", Run: ruleC02_4, MinSites: 1},
 			{ID: "C02.5", Desc: "validation handler returns the stored response only for 304 (or stale-if-error)", Run: ruleC02_5, MinSites: 1},
 			{ID: "C02.7", Desc: "Cache-Control (request and stored response) is read through all of its field lines", Run: func(c *Ctx) { ruleRLIST(c, "C02.7", "Cache-Control") }, MinSites: 1},
